@@ -2,7 +2,7 @@
     hence f(result) <= f(0) = 0 for every tolerance and iteration limit; the residual bound on exit by tolerance; the
     structural facts about rrBLUPModel0.fit_numpy (intercept = mean, monomorphic markers get exactly zero). *)
 From Coq Require Import Lqa.
-From PV Require Import Lib.Common Model.C04_Gmod Model.C04_GS Proofs.C04_Linear Proofs.C04_Var Proofs.C04_Sums.
+From PV Require Import Lib.Common Model.C04_Gmod Model.C04_GS Proofs.C04_Counts Proofs.C04_Linear Proofs.C04_Var Proofs.C04_Sums.
 Local Open Scope Q_scope.
 
 (** ** list facts *)
@@ -393,4 +393,49 @@ Lemma rr_fit1_structure p Z y ridge atol maxiter beta u : rr_fit1 p Z y ridge at
 Proof.
   unfold rr_fit1. destruct (gauss_seidel _ _ _ _) as [uh|]; [|discriminate]. intros E. injection E as <- <-.
   split; [reflexivity|]. split; [now rewrite scatter_length, poly_mask_length|]. intros j Hj. now apply scatter_masked.
+Qed.
+
+(** ** putting the exit analysis together *)
+Lemma diag_ok_spec (A : list (list Q)) : diag_ok A = true -> forall i, (i < length A)%nat -> ~ nth i (nth i A []) 0 == 0.
+Proof.
+  unfold diag_ok. intros H i Hi E. rewrite forallb_forall in H.
+  assert (In (i, nth i A []) (combine (seq 0 (length A)) A)).
+  { replace (i, nth i A []) with (nth i (combine (seq 0 (length A)) A) (0%nat, [])).
+    - apply nth_In. now rewrite combine_length, seq_length, Nat.min_id.
+    - rewrite combine_nth by (now rewrite seq_length). now rewrite seq_nth. }
+  specialize (H _ H0). cbn [fst snd] in H. apply negb_true_iff in H. apply Qeq_bool_iff in E. congruence.
+Qed.
+
+Lemma diag_ok_of_pos (A : list (list Q)) : (forall i, (i < length A)%nat -> 0 < nth i (nth i A []) 0) -> diag_ok A = true.
+Proof.
+  intros H. unfold diag_ok. apply forallb_forall. intros [i r] Hin. cbn [fst snd].
+  apply In_nth with (d := (0%nat, [])) in Hin as (k & Hk & Ek). rewrite combine_length, seq_length, Nat.min_id in Hk.
+  rewrite combine_nth in Ek by (now rewrite seq_length). rewrite seq_nth in Ek by exact Hk. injection Ek as <- <-. cbn [Nat.add].
+  apply negb_true_iff. destruct (Qeq_bool (nth k (nth k A []) 0) 0) eqn:E; [|reflexivity]. apply Qeq_bool_iff in E. specialize (H k Hk). lra.
+Qed.
+
+Lemma iter_sweep_length n A b : length A = n -> rows_len n A -> length b = n -> (forall i, (i < n)%nat -> ~ nth i (nth i A []) 0 == 0) ->
+  forall k x, length x = n -> length (iter_sweep A b k x) = n.
+Proof.
+  intros HA HAr Hb Hd. induction k as [|k IH]; intros x Lx; [exact Lx|]. cbn [iter_sweep]. apply IH.
+  destruct (gs_rows_spec n A b HA HAr Hb Hd A b 0 x Lx eq_refl eq_refl) as (L & _). exact L.
+Qed.
+
+(** gauss_seidel stops after k <= maxiter sweeps; if it stops early, the normal equations hold up to atol * sum_{j>i} |A_ij| *)
+Theorem gauss_seidel_exit_residual n A b atol maxiter xf : length A = n -> rows_len n A -> length b = n ->
+  0 < atol -> (0 < maxiter)%nat -> gauss_seidel A b atol maxiter = Some xf ->
+  exists k, (1 <= k <= maxiter)%nat /\ xf = iter_sweep A b k (repeat 0 n) /\
+    ((k < maxiter)%nat -> forall i, (i < n)%nat ->
+       Qabs' (nth i (residual A b xf) 0) <= atol * bigsum n (fun j => if Nat.ltb i j then Qabs' (nth j (nth i A []) 0) else 0)).
+Proof.
+  intros HA HAr Hb Hat Hmax E. unfold gauss_seidel in E. rewrite Hb in E.
+  assert (T : Qltb atol (2 * atol) = true) by (apply Qltb_lt; lra). rewrite T in E.
+  destruct (Nat.eqb_spec maxiter 0) as [->|NE]; [lia|]. cbn [negb andb] in E.
+  destruct (diag_ok A) eqn:D; [|discriminate]. injection E as <-.
+  assert (Hd : forall i, (i < n)%nat -> ~ nth i (nth i A []) 0 == 0) by (intros i Hi; apply diag_ok_spec; [exact D | now rewrite HA]).
+  destruct (gs_loop_exit A b atol maxiter (repeat 0 n) Hmax) as (k & Hk & Ek & Ck).
+  exists k. split; [exact Hk|]. split; [exact Ek|]. intros Hlt i Hi. specialize (Ck Hlt). rewrite Ek.
+  destruct k as [|k]; [lia|]. cbn [Nat.sub] in Ck. rewrite Nat.sub_0_r in Ck. rewrite iter_sweep_last in *.
+  apply (tolerance_exit_residual n A b HA HAr Hb Hd); [|exact Hi|exact Ck].
+  apply (iter_sweep_length n A b HA HAr Hb Hd). apply repeat_length.
 Qed.
